@@ -1498,7 +1498,7 @@ class CPCreateTakewhileMatch:
           returns=PatternMatchT)
 class CPCreateEmbeddedFilterMatch:
     def requires(for_node, continues):
-        return isinstance(for_node, ast.For) and all(c is not None for c in continues)
+        return isinstance(for_node, ast.For) and all(isinstance(c, ast.If) for c in continues)
 
     def ensures_at_the_for_statement(for_node, result):
         return at_for(result, for_node)
@@ -1550,3 +1550,98 @@ class DryTsTokenizeLineNumbers:
     def inv0(non_jsdoc_lines, lines_with_numbers, in_multiline_import, rest):
         return reveal(dry_track, rest, in_multiline_import) and \
             dry_track(non_jsdoc_lines, False) == lines_with_numbers + dry_track(rest, in_multiline_import)
+
+
+# ================================================================== parsers are handed EXACTLY the file's text (C12 view)
+# Every tree-sitter position (start_point) is a position in the text that was parsed. The location clauses above say
+# "line == start_point[0] + 1 of the node"; they mean a line of the FILE only if the parsed text is the file content,
+# unchanged -- no stripped prefix (shebang, BOM), no normalised line endings. parse_typescript / parse_rust are
+# assumed in c01_ts_base.py / c17_rust_context.py ("the tree of `code`"); these views verify the bodies up to the
+# external parser call: the parser object receives bytes(code, "utf8") and its root node is returned as is.
+from pyvc.api import Bytes  # noqa: E402
+from pyvc.ty import VOpaque, VOpt  # noqa: E402
+
+TsParserT = Opaque("TreeSitterParser")
+TsTreeT = Opaque("TreeSitterTree")
+TsLanguageT = Opaque("TreeSitterLanguage")
+_parse_root_fn = z3.Function("uf.tree_sitter_root", TsParserT.sort(), z3.StringSort(), TSNode.sort())
+tree_sitter_root = uf("tree_sitter_root", [TsParserT, Str], TSNode)   # root node of parser.parse(<text as utf-8>)
+the_ts_parser = uf("the_typescript_parser", [], TsParserT)
+the_rust_parser = uf("the_rust_parser", [], TsParserT)
+
+
+def _opaque_const(name, ty):
+    return VOpaque(z3.Const(name, ty.sort()), ty)
+
+
+@external("tree_sitter_typescript.language_typescript")
+def _x_ts_language(ex, args, kwargs, lineno):
+    return _opaque_const("ts.language.typescript", TsLanguageT)
+
+
+@external("tree_sitter_rust.language")
+def _x_rs_language(ex, args, kwargs, lineno):
+    return _opaque_const("ts.language.rust", TsLanguageT)
+
+
+@external("tree_sitter.Language")
+def _x_language(ex, args, kwargs, lineno):
+    return args[0]
+
+
+@external("tree_sitter.Parser")
+def _x_parser(ex, args, kwargs, lineno):
+    """Parser(language): one parser object per language (module-level singleton of the analyzers)."""
+    lang = str(args[0].t)
+    f = z3.Function("uf.the_typescript_parser" if "typescript" in lang else "uf.the_rust_parser", TsParserT.sort())
+    return VOpaque(f(), TsParserT)
+
+
+@external("TreeSitterParser.parse")
+def _x_parser_parse(ex, args, kwargs, lineno):
+    """parser.parse(data: bytes) -> tree; the tree's root node is an uninterpreted function of (parser, text)."""
+    p, data = args[0], args[1]
+    if not getattr(data, "is_bytes", False):
+        from pyvc.ty import Unsupported as _U
+        raise _U("Parser.parse on a non-bytes argument")
+    ex.ufs_used.add("tree-sitter: parser.parse(bytes).root_node is a function of (parser, text)")
+    return VOpaque(z3.Function("uf.tree_sitter_tree", TsParserT.sort(), z3.StringSort(), TsTreeT.sort())(p.t, data.t), TsTreeT)
+
+
+@external("TreeSitterTree.@root_node")
+def _x_tree_root(ex, args, kwargs, lineno):
+    t = args[0].t
+    if z3.is_app(t) and t.decl().name() == "uf.tree_sitter_tree":
+        root = _parse_root_fn(t.arg(0), t.arg(1))
+        # the per-language names other contract files use for the same tree: rust_root(text) (c17_rust_context.py),
+        # ts_root(text) (c01_ts_base.py)
+        S = z3.StringSort()
+        pname = str(t.arg(0))
+        if "rust" in pname:
+            ex.assume(root == z3.Function("uf.rust_root", S, TSNode.sort())(t.arg(1)))
+        elif "typescript" in pname:
+            ex.assume(root == z3.Function("uf.ts_root", S, TSNode.sort())(t.arg(1)))
+        v = VNode(root, TSNode)
+        ex.on_fresh(v)
+        return v
+    from pyvc.ty import Unsupported as _U
+    raise _U("root_node of a merged tree object")
+
+
+TB12 = "src/analyzers/typescript_base.py::TypeScriptBaseAnalyzer."
+RB12 = "src/analyzers/rust_base.py::RustBaseAnalyzer."
+
+
+@contract(TB12 + "parse_typescript~exact-text", props=["C12", "C13"],
+          types=dict(self=Rec("TypeScriptBaseAnalyzer", cls=TB12[:-1]), code=Str), returns=TSNode)
+class ParseTypescriptExactText:
+    def ensures_the_tree_is_the_parse_of_exactly_the_given_text(self, code, result):
+        # rows / columns of every node are rows / columns of `code` itself
+        return result == tree_sitter_root(the_ts_parser(), code)
+
+
+@contract(RB12 + "parse_rust~exact-text", props=["C12", "C13"],
+          types=dict(self=Rec("RustBaseAnalyzer", cls=RB12[:-1]), code=Str), returns=TSNode)
+class ParseRustExactText:
+    def ensures_the_tree_is_the_parse_of_exactly_the_given_text(self, code, result):
+        return result == tree_sitter_root(the_rust_parser(), code)
